@@ -25,6 +25,7 @@ def run(rep, props, replay=None):
     todo = []
     n_cases = 24 if quick else 300
     first_call_history(rep, rng)       # must stay the first covariance call of the process
+    many_observations(rep)
     fd.dtype_monitor(rep, rng, {
         "mean()": lambda d: d.mean().values, "covariance()": lambda d: d.covariance().values,
         "noise_variance(order=1)": lambda d: d.noise_variance(order=1), "noise_variance(order=3)": lambda d: d.noise_variance(order=3),
@@ -191,6 +192,33 @@ def run(rep, props, replay=None):
             rep.disagreements_checked += 1
             rep.violation(f"{what}: implementation differs from the textbook estimator (exact model)",
                           {"what": what, "grid": kind, "X": C.hexf(X)})
+
+
+def many_observations(rep):
+    """Hundreds of curves with unequal noise levels: the estimate is still the plain average of the per-curve estimates, the mean
+    the pointwise average, the covariance the sample covariance (nothing special happens at 100, 128, 256 ... observations)."""
+    from FDApy.misc.utils import _estimate_noise_variance
+    rng = np.random.default_rng([C.seed(), 9, 5])
+    x = np.linspace(0, 1, 11)
+    for n in (101, 130, 257):
+        lev = np.linspace(0.05, 2.0, n)[rng.permutation(n)]
+        X = np.round((np.sin(3 * x)[None, :] + lev[:, None] * rng.normal(size=(n, 11))) * 256) / 256
+        d = fd.dense(x, X)
+        rep.case(("many-observations", n, X.tobytes()), kind="many-observations")
+        bad = []
+        for order in (1, 2):
+            nv = float(d.noise_variance(order=order))
+            per = float(np.mean([_estimate_noise_variance(X[k], order) for k in range(n)]))
+            if abs(nv - per) > 1e-10 * max(1.0, per):
+                bad.append(f"noise_variance(order={order}) = {nv!r} is not the average {per!r} of the per-curve estimates")
+        mu = np.asarray(d.mean().values)[0]
+        if np.max(np.abs(mu - X.mean(axis=0))) > 1e-10:
+            bad.append("mean is not the pointwise average")
+        cov = np.asarray(d.covariance().values)[0]
+        if np.max(np.abs(cov - np.cov(X.T))) > 1e-9 * max(1.0, float(np.max(np.abs(cov)))):
+            bad.append("covariance is not the unbiased sample covariance")
+        if bad:
+            rep.violation(f"{n} observations: " + "; ".join(bad), {"x": C.hexf(x), "n_obs": n, "seed_stream": [C.seed(), 9, 5]})
 
 
 def monitors_cov(rep, rng, d, cov, x, X):
